@@ -106,6 +106,7 @@ KNOWN_CROP = "crop-adj-not-traceable"
 KNOWN_PAD = "pad-nonlinear-options"
 KNOWN_JAC = "jacobian-include-eval-affine"
 KNOWN_SUM = ops.KNOWN_SUM_INITIAL
+KNOWN_CCRO = ops.KNOWN_CIRCCONV_REAL_OUT
 
 
 # ---------------------------------------------------------------------------------------------------------------
@@ -404,7 +405,7 @@ def generate(ctx):
     per_class = PER_CLASS_QUICK
     nb = NBUCKETS_THOROUGH if ctx.thorough else NBUCKETS_QUICK
     known = {KNOWN_CROP} if ctx.is_known(KNOWN_CROP) else set()
-    ops.KNOWN_IDS = {k for k in (KNOWN_SUM,) if ctx.is_known(k)}
+    ops.KNOWN_IDS = {k for k in (KNOWN_SUM, KNOWN_CCRO) if ctx.is_known(k)}
     probe_time = [0.0]
 
     def on_view(rec, A, fn, shp, dt, phase="after"):
@@ -522,7 +523,7 @@ def generate(ctx):
     # source-derived class table (round 4): every LinearOperator subclass of the package is enumerated or pinned
     import jaxpr_translate as jt
 
-    cmod, src, missing, stale = jt.emit(common.REPO, ops.all_classes())
+    cmod, src, missing, stale = jt.emit(common.REPO, ops.all_classes(), ops.CALCULUS_LEFT)
     ctx.extra["linear_operator_classes"] = {"in_source": len(src), "not_enumerated_and_not_pinned": missing, "stale_pins_or_claims": stale, "pinned": sorted(jt.EXCLUDED)}
     mods = list(mods) + [(cmod, f"{len(src)} LinearOperator classes of the source: enumerated or pinned" + (f"; MISSING {missing} STALE {stale}" if missing or stale else ""))]
     return mods
@@ -996,6 +997,31 @@ def _table_validation(ctx):
     }
 
 
+def _calculus_kinds(ctx, model):
+    """10. operator arithmetic between an instance of every LinearOperator class that defines arithmetic of its own (table
+    generated from the source, harness/jaxpr_translate.py) and a NON-linear Operator (Abs, x*x): the class of the object
+    scico returns - LinearOperator or plain Operator - against the model's dispatch rule `combineKind` (Lean; proved sound
+    in `C06_calculus_kind_sound`); an operation scico refuses (NotImplementedError / TypeError) presents nothing.  A result
+    presented as a LinearOperator is additionally traced and probed like every other operator (class CalculusMixed)."""
+    from scico import linop
+
+    for cfg in ops.configs("CalculusMixed", ctx.rng):
+        want = model.call("combinekind", a="linear", b="nonlinear")
+        try:
+            R = ops.calculus_result(cfg)
+            got = "linear" if isinstance(R, linop.LinearOperator) else "nonlinear"
+        except (NotImplementedError, TypeError) as e:
+            got = "refused:" + type(e).__name__
+        ctx.count(f"calculus-kind:{cfg['op']}:{got}")
+        ctx.case({"calculus": f"{cfg['left']} {cfg['op']} {cfg['nonlinear']}", "presented": got}, ("calc", cfg["left"], cfg["op"], cfg["nonlinear"]), sample_every=17)
+        if got == "linear" and want != "linear":
+            def oracle(case, _cfg=cfg):
+                return oracle_for(ctx.rng)({"cls": "CalculusMixed", "config": _cfg, "view": "eval"})
+
+            ctx.disagree("calculus.kind", {"cls": "CalculusMixed", "config": cfg, "view": "eval"}, "presented as LinearOperator", f"combineKind = {want}", oracle=oracle,
+                         note="arithmetic with a non-linear Operator returned an object presented as a LinearOperator")
+
+
 def _family_programs(ctx, model):
     """9. whole programs under the proved family: Lean's `run` with the interpretation `famDen` (at ℂ: `Fam.famInterp`,
     sound for every table, so `check p = linC` gives linearity of that very `run` with no hypothesis) is executed by the
@@ -1100,7 +1126,7 @@ def correspond(ctx, model):
     timing = ctx.extra.setdefault("timing_s", {})
     for name, fn in (("corpus", lambda: _corpus(ctx, oracle)), ("mirror_vs_lean", lambda: _mirror_vs_lean(ctx, model)),
                      ("probes", lambda: _probes(ctx, ctx.rng)), ("synthetic_scalar", lambda: _synthetic_scalar(ctx, model)),
-                     ("synthetic_jax", lambda: _synthetic_jax(ctx, model)), ("table_validation", lambda: _table_validation(ctx)), ("fidelity", lambda: _fidelity(ctx)), ("family_tie", lambda: _family_tie(ctx, model)), ("family_programs", lambda: _family_programs(ctx, model))):
+                     ("synthetic_jax", lambda: _synthetic_jax(ctx, model)), ("table_validation", lambda: _table_validation(ctx)), ("fidelity", lambda: _fidelity(ctx)), ("family_tie", lambda: _family_tie(ctx, model)), ("family_programs", lambda: _family_programs(ctx, model)), ("calculus_kinds", lambda: _calculus_kinds(ctx, model))):
         t = time.time()
         fn()
         timing[name] = round(time.time() - t, 1)
@@ -1150,9 +1176,19 @@ def _sum_initial_affine():
     return bool(np.any(np.asarray(A(jnp.zeros((3,), np.float64))) != 0))
 
 
+def _circconv_real_output():
+    import jax.numpy as jnp
+    from scico import linop
+
+    h = jnp.fft.fft(jnp.asarray(np.array([1.0, -0.5, 0.25])), n=4)
+    A = linop.CircularConvolve(h, (4,), input_dtype=np.complex128, h_is_dft=True, output_dtype=np.float64)
+    x = jnp.asarray(np.array([1.0, 2.0, 0.0, -1.0]) + 0j)
+    return bool(np.max(np.abs(np.asarray(A(1j * x)) - 1j * np.asarray(A(x)))) > 1e-9)
+
+
 def findings(ctx, model):
     common.setup_scico()
-    for fid, fn in ((KNOWN_CROP, _crop_not_traceable), (KNOWN_PAD, _pad_nonlinear), (KNOWN_JAC, _jacobian_affine), (KNOWN_SUM, _sum_initial_affine)):
+    for fid, fn in ((KNOWN_CROP, _crop_not_traceable), (KNOWN_PAD, _pad_nonlinear), (KNOWN_JAC, _jacobian_affine), (KNOWN_SUM, _sum_initial_affine), (KNOWN_CCRO, _circconv_real_output)):
         if ctx.is_known(fid):
             try:
                 still = fn()
